@@ -45,6 +45,40 @@ RD_KINDS = {"i8": ("int8", 1, True, False), "i16": ("int16", 2, True, False), "i
             "i8be": ("int8be", 1, True, True), "i16be": ("int16be", 2, True, True), "i32be": ("int32be", 4, True, True),
             "u8be": ("uint8be", 1, False, True), "u16be": ("uint16be", 2, False, True), "u32be": ("uint32be", 4, False, True)}
 UNDEF_TEXT = {"i": "tests.undefined.i", "f": "tests.undefined.f", "s": 'tests.string_dict["zz"]'}
+
+# Module values: the `tests` module (libyara/modules/tests/tests.c, module_load) fixes them, so they are constants of the
+# specification.  Defined ones travel as pseudo-externals named m_* (token mext=, ignored by h_scan; printed as the module
+# expression); undefined ones as ("undef", ty, text).  They make the object opcodes (OBJ_LOAD / OBJ_FIELD / INDEX_ARRAY /
+# LOOKUP_DICT / CALL / OBJ_VALUE) part of the compared verdicts.
+MODPROBES = {
+    "m_one": ("tests.constants.one", "i", 1), "m_two": ("tests.constants.two", "i", 2),
+    "m_ia0": ("tests.integer_array[0]", "i", 0), "m_ia1": ("tests.integer_array[1]", "i", 1), "m_ia2": ("tests.integer_array[2]", "i", 2),
+    "m_ia256": ("tests.integer_array[256]", "i", 256),
+    "m_sa1i": ("tests.struct_array[1].i", "i", 1), "m_sdfi": ('tests.struct_dict["foo"].i', "i", 1),
+    "m_isum2": ("tests.isum(1, 2)", "i", 3), "m_isum3": ("tests.isum(1, 2, 3)", "i", 6), "m_isum0": ("tests.isum(-1, 1)", "i", 0),
+    "m_len5": ('tests.length("dummy")', "i", 5), "m_len0": ('tests.length("")', "i", 0),
+    "m_foo": ("tests.constants.foo", "s", b"foo"), "m_empty": ("tests.constants.empty", "s", b""),
+    "m_sa0": ("tests.string_array[0]", "s", b"foo"), "m_sa1": ("tests.string_array[1]", "s", b"bar"), "m_sa2": ("tests.string_array[2]", "s", b"baz"),
+    "m_sa3": ("tests.string_array[3]", "s", b"foo\x00bar"),
+    "m_sdf": ('tests.string_dict["foo"]', "s", b"foo"), "m_sdb": ('tests.string_dict["bar"]', "s", b"bar"),
+    "m_sdfs": ('tests.struct_dict["foo"].s', "s", b"foo"),
+    "m_emptyf": ("tests.empty()", "s", b""), "m_fb1": ("tests.foobar(1)", "s", b"foo"), "m_fb2": ("tests.foobar(2)", "s", b"bar"),
+    "m_fb3": ("tests.foobar(3)", "s", b"oops"),
+    "m_fsum2": ("tests.fsum(1.0, 2.0)", "f", 3.0), "m_fsum3": ("tests.fsum(1.0, 2.0, 0.5)", "f", 3.5),
+}
+MODITER = {
+    "tests.integer_array": ("i", [("int", 0), ("int", 1), ("int", 2)] + [("undef", "i")] * 253 + [("int", 256)]),
+    "tests.string_array": ("s", [("str", b"foo"), ("str", b"bar"), ("str", b"baz"), ("str", b"foo\x00bar")]),
+    "tests.string_dict": ("s", [("str", b"foo"), ("str", b"bar")]),
+    "tests.integer_dict": ("i", []),
+}
+MODUNDEF = {
+    "i": ["tests.undefined.i", "tests.integer_array[3]", "tests.integer_array[255]", 'tests.integer_dict["foo"]', "tests.struct_array[0].i",
+          "tests.struct_array[1000].i", 'tests.struct_dict["bar"].i', "entrypoint", "tests.empty_struct_array[0].struct_array[0].unused == \"x\""][:8],
+    "f": ["tests.undefined.f"],
+    "s": ['tests.string_dict["zz"]', "tests.string_array[4]", "tests.struct_array[1].s", 'tests.struct_dict["zz"].s', "tests.module_data", 'tests.string_dict[""]',
+          "tests.string_array[tests.undefined.i]", "tests.foobar(tests.undefined.i)", 'tests.string_dict[tests.string_dict["zz"]]'],
+}
 AR_OPC = {"add": "ADD", "sub": "SUB", "mul": "MUL", "div": "DIV"}
 CMP_OPC = {"eq": "EQ", "neq": "NEQ", "lt": "LT", "le": "LE", "gt": "GT", "ge": "GE"}
 INT_ONLY_OPC = {"mod": "OP_MOD", "band": "OP_BITWISE_AND", "bor": "OP_BITWISE_OR", "bxor": "OP_BITWISE_XOR", "shl": "OP_SHL", "shr": "OP_SHR"}
@@ -151,11 +185,11 @@ class Printer:
         if h == "filesize":
             return "filesize", ATOM
         if h == "ext":
-            return e[1], ATOM
+            return (MODPROBES[e[1]][0] if e[1] in MODPROBES else e[1]), ATOM
         if h == "var":
             return "i%d" % e[1], ATOM
         if h == "undef":
-            return UNDEF_TEXT[e[1]], ATOM
+            return (e[2] if len(e) > 2 else UNDEF_TEXT[e[1]]), ATOM
         if h == "count":
             return self.sref(e[1], "#"), ATOM
         if h == "countin":
@@ -218,6 +252,8 @@ class Printer:
             return "for %s i%d in %s : (%s)" % (self.quant(e[1]), d, self.rng(e[2], e[3]), self.pp(e[4])[0]), PSEUDO
         if h == "forenum":
             d = e[5]
+            if len(e) > 7:          # iteration over a module array / dictionary whose contents are e[2]
+                return "for %s %si%d in %s : (%s)" % (self.quant(e[1]), ("k%d, " % d) if "_dict" in e[7] else "", d, e[7], self.pp(e[3])[0]), PSEUDO
             return "for %s i%d in (%s) : (%s)" % (self.quant(e[1]), d, ", ".join(self.pp(x)[0] for x in e[2]), self.pp(e[3])[0]), PSEUDO
         if h == "forof":
             return "for %s of %s : (%s)" % (self.quant(e[1]), self.sset(e[2]), self.pp(e[3])[0]), PSEUDO
@@ -523,7 +559,7 @@ def cmp_flt(op, a, b):
     return cmp_num(op, a, b)
 
 
-QUIRKS = ("sentinel", "undef_quantifier", "int_loop_body", "dbl_lt_undef", "pct_double", "range_wrap")
+QUIRKS = ("sentinel", "undef_quantifier", "int_loop_body", "dbl_lt_undef", "range_wrap", "str_signed_cmp")
 
 
 class Eval:
@@ -585,13 +621,10 @@ class Eval:
         return t >= q[1]
 
     def pct(self, t, n, p):
+        """`P% of`: exact — t / n >= p / 100 (F44, the double-precision comparison, is repaired; its return is a violation)"""
         if p is None:
             return None
-        exact = t * 100 >= p * n
-        dbl = ((t / n) * 100) >= p
-        if exact != dbl:
-            self.events.add("pct_double")
-        return dbl if "pct_double" in self.q else exact
+        return t * 100 >= p * n
 
     def loop(self, q, items, body, vars_, curs, bool_body):
         """items: list of loop-variable values; curs: per item the for..of string (or None)"""
@@ -763,7 +796,11 @@ class Eval:
                 return cmp_num(e[1], a, b)
             if ty == "f":
                 return cmp_flt(e[1], float(a), float(b))
-            return cmp_num(e[1], str_compare(a, b), 0)
+            u = str_compare(a, b)
+            sg = str_compare(bytes((c + 128) & 255 for c in a), bytes((c + 128) & 255 for c in b))   # order of signed chars
+            if cmp_num(e[1], u, 0) != cmp_num(e[1], sg, 0):
+                self.events.add("str_signed_cmp")
+            return cmp_num(e[1], sg if "str_signed_cmp" in self.q else u, 0)
         if h == "sop":
             a, b = self.ev(e[2], vars_, cur), self.ev(e[3], vars_, cur)
             self.stat("OP_" + e[1].upper(), a, b)
